@@ -32,7 +32,9 @@ def po2_mves(bits, signed, rnd=None):
   nsb = bits - (1 if signed else 0)
   emin, emax = -(1 << (nsb - 1)), (1 << (nsb - 1)) - 1
   ks = {emin, emin + 1, -2, -1, 0, 1, 2, 3, emax - 1, emax, emax + 1, emax + 5}
-  ks = sorted(k for k in ks if emin <= k <= 60)
+  # |k| <= 60: products of two max values stay exact, finite doubles (the
+  # multipliers multiply max values as floats; 2^-1024 * 2^-255 would underflow to 0)
+  ks = sorted(k for k in ks if max(emin, -60) <= k <= 60)
   return [None] + ks
 
 
